@@ -411,7 +411,7 @@ def run_case(exe, args, env, workdir, tag, timeout=60):
     return {"status": status, "rc": rc, "log": log, "out": out[-2000:]}
 
 
-def drv(model, log, timeout=120):
+def drv(model, log, timeout=600):
     p = sh([verifdrv_path(), model, log], timeout=timeout)
     out = p.stdout
     v = {"validate_ok": False, "monitor_ok": False, "raw": out.strip()[-1500:]}
